@@ -42,7 +42,7 @@ def funcHashes : List (String × String) := [
   ("provider.NewID", "a5316cc1d451616f"),
   ("provider.Readiness", "67e31901a1be8672"),
   ("provider.ReadyStorage", "56e1d6f23d31eb42"),
-  ("provider.issuerFromForwardedOrHost", "4f79ea5f234998e7"),
+  ("provider.issuerFromForwardedOrHost", "6a33fdc46a67bd21"),
   ("provider.hostFromForwarded", "065d05d473ed26b2"),
   ("provider.StaticIssuer", "00add1aeeac7650d"),
   ("provider.IssuerFromContext", "10346d72461c0720"),
